@@ -7,6 +7,7 @@ From V.c04 Require Import C04Model C04AsmModel C04ReaderProofs C04ContainerProof
 From V.c04 Require Import C04AllocModel C04AllocProofs.
 From V.c04 Require Import C04MfraModel C04MfraProofs.
 From V.c04 Require Import C04TreeModel C04TreeProofs.
+From V.c04 Require Import C04TreeXModel C04TreeXProofs.
 From V.c04 Require Import C04XrefModel C04XrefProofs.
 From V.c04 Require Import C04InfoModel C04InfoProofs.
 Open Scope N_scope.
@@ -598,3 +599,68 @@ Example ex_info_states :
   senc_parsed_state 2 2 [1;1;1;1;1;1;1;1;0;0; 2;2;2;2;2;2;2;2;0;1;0;10;0;0;0;100] 8 = Some (ISenc 2 2 8 2 [0;1] 26) /\
   info_lines (ISenc 2 2 8 2 [0;1] 26) 1 = Ok 6.
 Proof. vm_compute. repeat split; reflexivity. Qed.
+
+(* ---- (i) sidx, subs, pssh as leaves of the tree theorem.  They have no size guard: on the SliceReader path the position they
+        leave the shared reader at and the Size() they report are functions of the CONTENT (sidx_run / subs_total / pssh_run keep
+        the final reader state and Size()).  What this means for the property:
+        - an ACCEPTED box costs at most 6 per byte it consumed (C04_unguarded_leaf_cost, first clause): sidx 17 per 12-byte
+          reference, subs 13 n + 33 per entry of 6 + 8 n bytes, pssh 41 per 16-byte KID;
+        - a REJECTED box costs at most 6 per byte seen + 1114095 = 17 * 65535: a 32-byte sidx whose 16-bit reference_count says
+          65535 appends 65535 16-byte SidxRef (1 MiB) before it returns the reader's sticky error; a subs entry whose 16-bit
+          subsample_count says 65535 appends 65535 12-byte entries (786 KiB) before the error check.  No count of these boxes
+          is used for a make(): the allocation is bounded by a constant that does not grow with the input, and the error ends
+          the whole decode, so it is paid ONCE.  It is not a finding (the property allows a*len + b).
+        Hence the tree theorem with these leaves has the SAME factor and a constant larger by that one-time cost: two-constant
+        leaf contract leaf_ok3 (a box: 7 * consumed + 20700; an error: 7 * remaining + 1200000), both child loops re-proved. ---- *)
+Theorem C04_unguarded_leaf_cost : forall t body, unguarded t = true ->
+  exists o e sz, run_x t body = Ok (o, e, sz) /\ r_pos e <= lenN body /\
+    (o_ok o = true -> o_alloc o + o_iters o <= 6 * r_pos e) /\
+    o_alloc o + o_iters o <= 6 * lenN body + 1114095.
+Proof. exact run_x_ok. Qed.
+Print Assumptions C04_unguarded_leaf_cost.
+
+(* the runs are the prologue models of C04_alloc_sidx / _subs / _pssh with the final state kept *)
+Theorem C04_unguarded_runs_are_prologues : forall hs hl body,
+  alloc_sidx hs hl body = Ok (fst (fst (sidx_run body))) /\
+  alloc_pssh hs hl body = Ok (fst (fst (pssh_run body))) /\
+  alloc_subs hs hl body = match subs_total body with Ok (o, _, _) => Ok o | Err => Err | Panic => Panic | OutOfFuel => OutOfFuel end.
+Proof. intros. split; [apply sidx_run_alloc | split; [apply pssh_run_alloc | apply subs_total_alloc]]. Qed.
+Print Assumptions C04_unguarded_runs_are_prologues.
+
+Theorem C04_tree_alloc_unguarded : forall other, leaf_ok other -> forall bs, small32 bs = true ->
+  (exists r s', box_sr (mixx_leaves other) bs = (r, s') /\ (r = Err \/ exists t, r = Ok t) /\
+                (alloc (scost s') <= 2600 * lenN bs + 1200040)%N /\ (ticks (scost s') <= 2600 * lenN bs + 1200040)%N) /\
+  (exists r s', box_r (mixx_leaves other) bs = (r, s') /\ (r = Err \/ r = Ok BEof \/ exists t, r = Ok (BBox t)) /\
+                (alloc (icost s') <= 2601 * lenN bs + 1200071)%N /\ (ticks (icost s') <= 2601 * lenN bs + 1200071)%N).
+Proof. exact treex_alloc. Qed.
+Print Assumptions C04_tree_alloc_unguarded.
+
+Theorem C04_container_total3_sr : forall ld, leaf_ok3 ld -> forall bs, small32 bs = true ->
+  exists r s', box_sr ld bs = (r, s') /\ (r = Err \/ exists t, r = Ok t) /\
+               (tot (scost s') <= 2600 * lenN bs + 1200040)%N.
+Proof. exact treex_total_sr. Qed.
+Print Assumptions C04_container_total3_sr.
+
+Theorem C04_container_total3_r : forall ld, leaf_ok3 ld -> forall bs, small32 bs = true ->
+  exists r s', box_r ld bs = (r, s') /\ (r = Err \/ r = Ok BEof \/ exists t, r = Ok (BBox t)) /\
+               (tot (icost s') <= 2601 * lenN bs + 1200071)%N.
+Proof. exact treex_total_r. Qed.
+Print Assumptions C04_container_total3_r.
+
+Theorem C04_unguarded_leaves_ok : forall other, leaf_ok other -> leaf_ok3 (mixx_leaves other).
+Proof. exact mixx_leaves_ok3. Qed.
+Print Assumptions C04_unguarded_leaves_ok.
+
+(* a sidx box that announces 8 bytes and one reference: on the SliceReader path it is accepted, reads 44 bytes and reports
+   Size() = 44; on the io.Reader path (readBoxBody: an empty payload) it is an error.  A 32-byte sidx whose reference_count is
+   65535 requests 1048560 bytes and is an error. *)
+Example ex_sidx_beyond_box : list N :=
+  [0;0;0;8;115;105;100;120; 0;0;0;0; 0;0;0;1; 0;0;3;232; 0;0;0;0; 0;0;0;0; 0;0;0;1; 0;0;0;100; 0;0;3;232; 144;0;0;0].
+Example ex_sidx_count_65535 : list N :=
+  [0;0;0;32;115;105;100;120; 0;0;0;0; 0;0;0;1; 0;0;3;232; 0;0;0;0; 0;0;0;0; 0;0;255;255].
+Example ex_unguarded :
+  leaf_ok std_leaves /\ small32 ex_sidx_beyond_box = true /\
+  (match box_sr tblx_leaves ex_sidx_beyond_box with (Ok t, s) => tsize t = 44%N /\ rpos (sr s) = 44%Z /\ alloc (scost s) = 16%N | _ => False end) /\
+  fst (box_r tblx_leaves ex_sidx_beyond_box) = Err /\
+  (match box_sr tblx_leaves ex_sidx_count_65535 with (Err, s) => alloc (scost s) = 1048560%N | _ => False end).
+Proof. split; [exact std_leaves_ok|]. vm_compute. repeat split; reflexivity. Qed.
